@@ -362,7 +362,50 @@ def check_group(ctx, case):
         ctx.klass('single group correlations')
 
 
+def check_threads(ctx, name=None, rounds=3):
+    """A dimensional getter is a function of (object, T, units): shared group
+    correlations and one shared estimate read by four threads at once, in all
+    unit keys, give what they give a lone caller."""
+    from vmon.core import threads as TH
+    if name is None:
+        name = libs.LIBS[(ctx.seed + ctx.shard // 4) % len(libs.LIBS)]
+    lib = libs.fresh(name)
+    r = ctx.sub_rng('c07thr', name)
+    gs = [g for g in lib if 'thermochem' in lib[g]]
+    objs = [('group %s' % g, lib[g]['thermochem'])
+            for g in r.sample(gs, min(len(gs), 5))]
+    pl = molecules.pool(ctx.seed, n_random=20, n_ads=20,
+                        metal=libs.METAL.get(name, 'Pt'),
+                        nitrogen=name in ('PPY', 'BensonGA'))
+    for smi in r.sample(pl, min(len(pl), 12)):
+        try:
+            est = lib.Estimate(lib.GetDescriptors(smi), 'thermochem')
+            objs.append(('estimate %s' % smi, est))
+            break
+        except Exception:
+            continue
+    keys = list(R_TABLE)
+
+    def make_jobs():
+        jobs = []
+        for label, obj in objs:
+            rg = obj.get_range()
+            T = 0.5 * (rg[0] + rg[1]) if rg is not None else 298.15
+            for k in keys:
+                eu = k[:-2]
+                for nm, unit in (('get_H', eu), ('get_G', eu), ('get_S', k),
+                                 ('get_Cp', k)):
+                    jobs.append(((label, nm, k), lambda f=getattr(obj, nm),
+                                 T=T, u=unit: repr(float(f(T, u)))))
+        return jobs
+    res = TH.stress(make_jobs, nthreads=4, rounds=rounds)
+    TH.judge(ctx, res, 'dimensional getters on shared objects',
+             {'what': 'thread stress', 'lib': name})
+
+
 def run_shard(ctx):
+    if ctx.shard % 4 == 1:
+        check_threads(ctx)
     i = 0
     nrand = 25 if ctx.tier == 'quick' else 250
     for name in libs.LIBS:
@@ -401,6 +444,8 @@ def run_shard(ctx):
 
 
 def replay(ctx, case):
+    if case.get('what') == 'thread stress':
+        return check_threads(ctx, case['lib'], rounds=10)
     if 'smiles' in case:
         check_molecule(ctx, case)
     else:
